@@ -76,6 +76,32 @@ theorem akeys_areplace {β : Type} (n : String) (v : β) (l : List (String × β
 theorem akeys_append {β : Type} (l r : List (String × β)) : akeys (l ++ r) = akeys l ++ akeys r := by
   simp [akeys]
 
+theorem alookup_isSome_of_mem_akeys {β : Type} (n : String) (l : List (String × β)) :
+    n ∈ akeys l → (alookup n l).isSome = true := by
+  induction l with
+  | nil => simp [akeys]
+  | cons kv l ih =>
+    obtain ⟨k, v⟩ := kv
+    simp only [akeys, List.map_cons, List.mem_cons, alookup]
+    intro h
+    split
+    · rfl
+    · next hne =>
+      cases h with
+      | inl e => exact absurd e.symm hne
+      | inr e => exact ih e
+
+theorem alookup_mem {β : Type} (n : String) (w : β) (l : List (String × β)) (h : alookup n l = some w) :
+    (n, w) ∈ l := by
+  induction l with
+  | nil => simp [alookup] at h
+  | cons kv l ih =>
+    obtain ⟨k, x⟩ := kv
+    simp only [alookup] at h
+    split at h
+    · next hk => cases h; simp [hk]
+    · exact List.mem_cons_of_mem _ (ih h)
+
 @[simp] theorem Tree.info_mk (i : NodeInfo) (k : List Tree) : (Tree.mk i k).info = i := rfl
 @[simp] theorem Tree.kids_mk (i : NodeInfo) (k : List Tree) : (Tree.mk i k).kids = k := rfl
 @[simp] theorem Tree.name_mk (i : NodeInfo) (k : List Tree) : (Tree.mk i k).name = i.name := rfl
